@@ -108,6 +108,9 @@ def run(ctx):
     if n < 2:
         ctx.fail("SLACK-SPLIT: the slack sharing statements were not found")
     _lints.split_total(ctx, "SPLIT-TOTAL")
+    from rules import C10
+    C10.rule_xward(ctx)     # SW-XWARD: the xward share closes the balance at its bus (shared with C01 / C10)
+    _lints.ref_gens(ctx, "REF-GENS")
     R6 = "PFSOLN-TWIN"
     ctx.rule(R6, "the numba and the pypower implementation of pfsoln keep the same generator bookkeeping (on, gbus, Sbus, _update_v, "
                  "_update_q, extension by the Q-limited generators, _update_p): the slack power is written to the same generator rows")
@@ -177,6 +180,8 @@ def variants(repo):
         V("shortcut with zip loads", "pandapower/pf/run_newton_raphson_pf.py", replace_once('                                             and not options["voltage_depend_loads"] \\\n', ""), "SHORTCUT-GUARD"),
         V("ac slack split by all gens at the bus", "pandapower/pypower/pfsoln.py", replace_once("gen[ext_grids, PG] = p_ext_grids / len(ext_grids)", "gen[ext_grids, PG] = p_ext_grids / len(gens_at_bus)"), "SLACK-SPLIT"),
         V("numba pfsoln re-adds limited gens at reference buses only", "pandapower/pf/pfsoln_numba.py", replace_once("on = find((gen[:, GEN_STATUS] > 0) | isin(arange(len(gen)), limited_gens))", "on = find((gen[:, GEN_STATUS] > 0) | (isin(arange(len(gen)), limited_gens) & isin(gen[:, GEN_BUS].astype(int64), ref)))"), "PFSOLN-TWIN"),
+        V("slack gens reference machines only without ext_grid", "pandapower/pd2ppc.py", replace_once('    if np.any(net.gen.slack.values[net._is_elements["gen"]]):', '    if not len(ref_gens) and np.any(net.gen.slack.values[net._is_elements["gen"]]):'), "REF-GENS"),
+        V("storage not among the node elements of the xward share", "pandapower/results_bus.py", replace_once("node_elements = ['sgen', 'load', 'ward', 'xward', 'storage']", "node_elements = ['sgen', 'load', 'ward', 'xward']"), "node-elements"),
         V("equal split of the whole bus power among all gens", "pandapower/pypower/pfsoln.py", replace_once("gen[ext_grids, PG] = p_ext_grids / len(ext_grids)", "gen[gens_at_bus, PG] = p_bus / len(gens_at_bus)"), "SPLIT-TOTAL"),
         V("equal split forgets the pv generation", "pandapower/pypower/pfsoln.py", replace_once("gen[ext_grids, PG] = p_ext_grids / len(ext_grids)", "gen[ext_grids, PG] = p_bus / len(ext_grids)"), "SPLIT-TOTAL"),
         V("twin: pv sum in a local", "pandapower/pypower/pfsoln.py", replace_once("        p_ext_grids = p_bus - sum(gen[pv_gens, PG])\n", "        p_pv = sum(gen[pv_gens, PG])\n        p_ext_grids = p_bus - p_pv\n"), None),
